@@ -4,25 +4,93 @@ package server
 //
 // One real server. The harness shapes a partition's log (dense, many segments,
 // compacted-sparse, retention-trimmed, empty, uncommitted tail above the HW,
-// read-only) through the public API plus the partition's own commit log, and then
-// issues subscription requests over start position x stop position x direction
-// through the real Subscribe handler. Expected deliveries are computed from the
-// documented meaning of the positions over the committed, retained messages.
+// read-only, newest segment empty after an age roll) through the public API plus
+// the partition's own commit log, and then issues subscription requests over start
+// position x stop position x direction through the real Subscribe handler. Expected
+// deliveries are computed from the documented meaning of the positions over the
+// committed, retained messages.
+//
+// The reference is what the harness published (offsets and reception times from the
+// acks, keys, headers, NATS reply subjects), reduced to the messages the log still
+// holds; that the log holds every message it has to (C08's survivor rule, a
+// contiguous suffix under retention) and nothing else is checked whenever the
+// reference is rebuilt.
+//
+// Two kinds of operations: "sub" judges one request against the log as it stands
+// (and, for requests that keep waiting, against two more published messages);
+// "live" opens one to three subscriptions, lets them reach the end of the log and
+// then changes the log under them (read-only flag, clean, publish, high watermark
+// raised step by step through an uncommitted tail).
 
 import (
+	"bytes"
 	"fmt"
+	"os"
+	"sort"
+	"strconv"
+	"strings"
 	"testing"
 	"time"
 
 	client "github.com/liftbridge-io/liftbridge-api/v2/go"
+	"github.com/nats-io/nats.go"
 	"google.golang.org/grpc/codes"
 	"google.golang.org/grpc/status"
 
 	"github.com/liftbridge-io/liftbridge/server/commitlog"
+	proto "github.com/liftbridge-io/liftbridge/server/protocol"
 
 	"verif.local/simrt"
 	"verif.local/simrt/hx"
 )
+
+// c10AvoidEmptyActiveSegmentTimestamps: on the pinned tree the timestamp lookups
+// (EarliestOffsetAfterTimestamp, LatestOffsetBeforeTimestamp) are wrong while the newest
+// segment is empty, which is the state the cleaner's tick leaves behind when it rolls a full
+// or aged segment: findSegmentIndexByTimestamp gets io.EOF from the empty segment's index, a
+// start timestamp inside the last non-empty segment resolves to the log end and a stop
+// timestamp fails with "failed to find log segment for timestamp: EOF". That is a reported
+// defect (clauses C10/missing, C10/ends-early fire). While this switch is on, requests that
+// use a timestamp position are not issued while the newest segment is empty; everything else
+// about the age-rolled shape is still judged. The generator copies the switch into the
+// program (parameter avoid_empty_active_ts) so that a replay carries its own setting.
+const c10AvoidEmptyActiveSegmentTimestamps = true
+
+// c10AvoidStopOnEmptiedLog: when retention has removed every segment but an empty newest one
+// (age roll, then a message or age limit that the last non-empty segment alone exceeds), the log
+// holds no message although its high watermark and end are above zero. A subscription with a stop
+// position at or below the high watermark then neither delivers nor ends: the committed reader
+// treats the log as empty and waits for the next message, and only that message (being beyond
+// the stop) ends it. Reported (clause C10/does-not-end). While this switch is on, forward requests
+// with a stop position are not issued on such a log (parameter avoid_emptied_log_stop).
+const c10AvoidStopOnEmptiedLog = true
+
+// c10AvoidTrimAboveHW: with an uncommitted tail that spans more than the newest segment,
+// retention can remove the segment that holds the high watermark. Subscriptions then fail with
+// an internal error (HW position lookup), deliver the uncommitted messages that follow
+// (C10/uncommitted), or die with "segment has been closed" when parked in the removed segment
+// (C10/missing). Reported. While this switch is on, programs whose cleaner ticks and applies
+// retention by itself (age) get no uncommitted tail (parameter avoid_trim_above_hw); in the
+// other programs retention only runs before the tail is appended.
+const c10AvoidTrimAboveHW = true
+
+// c10AvoidTrimUnderParked: a subscription that has read to the end of the log stands in the newest
+// segment. When the cleaner's tick rolls that segment by age and retention then removes it (it alone
+// exceeds the message limit; an age limit does the same to an idle stream), the subscription does
+// not get the next published message: the committed reader still reads from the removed segment
+// and the subscription ends with code Unknown, "failed to read message headers: segment has been
+// closed" (only a replaced segment makes the reader start over). Reported (clause C10/missing).
+// While this switch is on, the live scenario that lets the cleaner tick under parked subscriptions
+// publishes fewer messages than the limit, so that the segment they stand in survives
+// (parameter avoid_trim_under_parked).
+const c10AvoidTrimUnderParked = true
+
+func c10b(b bool) int64 {
+	if b {
+		return 1
+	}
+	return 0
+}
 
 func genC10(r *simrt.Rand, tier string, idx int) *hx.Program {
 	p := &hx.Program{P: map[string]int64{}}
@@ -37,38 +105,1243 @@ func genC10(r *simrt.Rand, tier string, idx int) *hx.Program {
 	p.P["tail"] = []int64{0, 0, 1, 3}[r.Intn(4)]
 	p.P["readonly"] = []int64{0, 0, 0, 1}[r.Intn(4)]
 	p.P["seed"] = int64(r.Uint64() >> 1)
+	// ---- behaviours drawn per program (swarm)
+	// rich: messages with keys, headers (also the two names the server sets itself), own ack
+	// inboxes, and messages that reach the stream subject as plain NATS messages with a reply subject
+	p.P["rich"] = c10b(r.Pct(35))
+	// age: segments roll by age (1 s) on the cleaner's tick (1 s), and the harness lets more than
+	// three seconds pass after publishing: the newest segment is empty when the requests are made.
+	// Compaction is left out of these programs: the ticking cleaner rewrites every segment once a
+	// second and readers meet the recorded finding C08/live/error/index-of-replaced-segment.
+	p.P["age"] = c10b(r.Pct(12))
+	if p.P["age"] == 1 {
+		p.P["compact"] = 0
+	}
+	// (development aid: VERIF_C10_SHOW=empty_active_ts,emptied_log_stop,trim_above_hw,trim_under_parked generates the
+	// reported shapes again; the setting travels in the program, so replays do not need it)
+	show := "," + os.Getenv("VERIF_C10_SHOW") + ","
+	p.P["avoid_empty_active_ts"] = c10b(c10AvoidEmptyActiveSegmentTimestamps && !strings.Contains(show, ",empty_active_ts,"))
+	p.P["avoid_emptied_log_stop"] = c10b(c10AvoidStopOnEmptiedLog && !strings.Contains(show, ",emptied_log_stop,"))
+	p.P["avoid_trim_above_hw"] = c10b(c10AvoidTrimAboveHW && !strings.Contains(show, ",trim_above_hw,"))
+	p.P["avoid_trim_under_parked"] = c10b(c10AvoidTrimUnderParked && !strings.Contains(show, ",trim_under_parked,"))
+	if p.P["age"] == 1 && p.P["trim"] > 0 && p.P["avoid_trim_above_hw"] == 1 {
+		p.P["tail"] = 0
+	}
+	livePct := []int{0, 0, 8, 20}[r.Intn(4)]  // share of operations that change the log under open subscriptions
+	edgePct := []int{0, 25, 60}[r.Intn(3)]    // share of offsets/timestamps placed at a retained message -1/0/+1
+	revPct := []int{0, 10, 20, 45}[r.Intn(4)] // share of reverse requests
+	badPct := []int{0, 0, 4}[r.Intn(3)]       // share of requests with an undefined position value
 	nreq := 24
 	if tier == "thorough" {
 		nreq = 160
 	}
 	for i := 0; i < nreq; i++ {
-		// start kind, start arg (permille), stop kind, stop arg (permille), reverse, publish-more
-		p.Ops = append(p.Ops, hx.Op{K: "sub", A: []int64{int64(r.Intn(5)), int64(r.Intn(1300)) - 150, int64(r.Intn(4)), int64(r.Intn(1300)) - 150, int64(r.Intn(5) / 4), int64(r.Intn(3) / 2)}})
+		if r.Pct(livePct) {
+			// scenario, subscriptions-1, seed of the shapes, variant bits
+			p.Ops = append(p.Ops, hx.Op{K: "live", A: []int64{int64(r.Intn(5)), int64(r.Intn(3)), int64(r.Uint64() >> 1), int64(r.Intn(8))}})
+			continue
+		}
+		// start kind, start arg (permille), stop kind, stop arg (permille), reverse, publish-more, start edge, stop edge
+		a := []int64{int64(r.Intn(5)), int64(r.Intn(1300)) - 150, int64(r.Intn(4)), int64(r.Intn(1300)) - 150, c10b(r.Pct(revPct)), int64(r.Intn(3) / 2), 0, 0}
+		if r.Pct(edgePct) {
+			a[6] = int64(1 + r.Intn(3))
+		}
+		if r.Pct(edgePct) {
+			a[7] = int64(1 + r.Intn(3))
+		}
+		if a[4] == 1 {
+			// reverse is documented for stop-on-cancel and the start positions offset/earliest/latest:
+			// most reverse requests are of that form, and most offsets sit next to a retained message
+			// (the edges of compaction gaps)
+			if r.Pct(80) {
+				a[2] = 0
+			}
+			if r.Pct(85) {
+				a[0] = int64(1 + r.Intn(3))
+			}
+			if a[0] == 1 && a[6] == 0 && r.Pct(60) {
+				a[6] = int64(1 + r.Intn(3))
+			}
+		}
+		if r.Pct(badPct) {
+			if r.Pct(50) {
+				a[0] = 5
+			} else {
+				a[2] = 4
+			}
+		}
+		p.Ops = append(p.Ops, hx.Op{K: "sub", A: a})
 	}
 	return p
 }
 
+// c10msg is one message: as published by the harness, and as expected from a subscription.
 type c10msg struct {
-	off int64
-	ts  int64
-	val string
+	off   int64
+	ts    int64 // reception time (from the ack; for messages without ack taken from the log, within [lo, hi])
+	val   string
+	key   []byte
+	hdr   map[string][]byte // headers set by the publisher
+	reply string            // NATS reply subject the message arrived with
+	lo    int64             // clock before and after publishing (messages without ack)
+	hi    int64
+}
+
+// c10shape is a subscription request in concrete values.
+type c10shape struct {
+	startKind, stopKind int64 // StartPosition / StopPosition values (also undefined ones)
+	startOff, startTs   int64
+	stopOff, stopTs     int64
+	reverse             bool
+}
+
+// c10exp is what a request is expected to do.
+type c10exp struct {
+	spec    bool // false: the documentation does not determine the outcome
+	desc    string
+	S       int64 // effective start (first offset that may be delivered; reverse: last)
+	Sreq    int64 // requested start before the high-watermark rule
+	E       int64 // inclusive stop offset, -1: none
+	want    []c10msg
+	ends    bool         // ends by itself
+	codes   []codes.Code // accepted status codes when it ends by itself; nil: any error status
+	reverse bool
+}
+
+type c10live struct {
+	x      *c10exp
+	st     *subStream
+	cancel func()
+	done   bool // ended as expected
+}
+
+type c10 struct {
+	h       *h3
+	n       *simNode
+	p       *partition
+	prog    *hx.Program
+	verbose bool
+	r       *simrt.Rand
+	foreign *nats.Conn
+
+	compact, trim, age, rich bool
+
+	avoidEmptyTs, avoidEmptiedStop, avoidTrimAboveHW bool
+
+	pubs      []c10msg // everything that was published or appended, by offset
+	lastAcked int64
+	seq       int
+
+	all, committed     []c10msg
+	hw, newest, oldest int64
+	readonly           bool
+	nsegs              int
+	activeEmpty        bool // the newest segment is empty and not the only one
+	emptied            bool // messages were published, none is retained
+
+	judged int // requests and live subscriptions judged
+	cnt    map[string]int
+}
+
+func (c *c10) fail(x *c10exp, kind, format string, a ...any) {
+	c.h.fail("C10/"+kind, "C10/"+kind, "%s on a log with retained offsets %s, hw=%d, readonly=%v: %s", x.desc, c10offs(c.all), c.hw, c.readonly, fmt.Sprintf(format, a...))
+}
+
+// ---------------------------------------------------------------- publishing
+
+// publishAPI publishes through the Publish handler and records what the ack says.
+func (c *c10) publishAPI(m c10msg, ackInbox, corr string) error {
+	var resp *client.PublishResponse
+	var err error
+	c.h.rpc(c.n, "publish", func(api *apiServer) {
+		ctx, cancel := ctxT(5 * time.Second)
+		defer cancel()
+		resp, err = api.Publish(ctx, &client.PublishRequest{Stream: "s", Key: m.key, Value: []byte(m.val), Headers: m.hdr, AckInbox: ackInbox, CorrelationId: corr, AckPolicy: client.AckPolicy_LEADER})
+	})
+	if err != nil || resp == nil || resp.Ack == nil {
+		return fmt.Errorf("publish: %v", err)
+	}
+	m.off, m.ts = resp.Ack.Offset, resp.Ack.ReceptionTimestamp
+	c.pubs = append(c.pubs, m)
+	if m.off > c.lastAcked {
+		c.lastAcked = m.off
+	}
+	return nil
+}
+
+// publishNATS sends data to the stream's subject as any NATS client may, with a reply subject.
+func (c *c10) publishNATS(m c10msg, data []byte) error {
+	if c.foreign == nil {
+		c.h.do(900, "nats-connect", func() { c.foreign, _ = nats.Connect("sim") })
+		if c.foreign == nil {
+			return fmt.Errorf("NATS client could not connect")
+		}
+	}
+	prev := c.p.log.NewestOffset()
+	m.lo = time.Now().UnixNano()
+	conn := c.foreign
+	c.h.do(900, "nats-publish", func() { conn.PublishRequest("s", m.reply, data) })
+	if !c.h.pollFor("nats-stored", 2*time.Second, func() bool { return c.p.log.NewestOffset() > prev && c.p.log.HighWatermark() > prev }) {
+		return fmt.Errorf("a message sent to the stream subject was not stored and committed within 2 simulated seconds")
+	}
+	m.hi = time.Now().UnixNano()
+	m.off = prev + 1
+	c.pubs = append(c.pubs, m)
+	c.cnt["probe.messages_published_as_plain_nats_with_reply"]++
+	return nil
+}
+
+// publishNext publishes the next message in the program's style.
+func (c *c10) publishNext(val string) error {
+	r := c.r
+	m := c10msg{val: val}
+	if c.compact && r.Pct(75) || c.rich && r.Pct(30) {
+		m.key = []byte(string(rune('a' + r.Intn(4))))
+	}
+	if !c.rich {
+		return c.publishAPI(m, "", "")
+	}
+	c.cnt["probe.messages_published_with_keys_headers_inboxes"]++
+	if r.Pct(55) {
+		m.hdr = map[string][]byte{"h1": []byte(fmt.Sprintf("hv%d", c.seq))}
+		if r.Pct(25) {
+			m.hdr["subject"] = []byte("not.the.subject")
+		}
+		if r.Pct(25) {
+			m.hdr["reply"] = []byte("not.the.reply")
+		}
+		if r.Pct(15) {
+			m.hdr["empty"] = []byte{}
+		}
+	}
+	c.seq++
+	switch r.Intn(10) {
+	case 0: // plain data, no envelope
+		m.key, m.hdr = nil, nil
+		m.reply = fmt.Sprintf("reply.to.%d", c.seq)
+		return c.publishNATS(m, []byte(m.val))
+	case 1: // envelope sent by a NATS client
+		m.reply = fmt.Sprintf("reply.to.%d", c.seq)
+		frame, err := proto.MarshalPublish(&client.Message{Key: m.key, Value: []byte(m.val), Headers: m.hdr, AckPolicy: client.AckPolicy_NONE})
+		if err != nil {
+			return err
+		}
+		return c.publishNATS(m, frame)
+	case 2, 3, 4:
+		return c.publishAPI(m, fmt.Sprintf("my.acks.%d", c.seq), fmt.Sprintf("corr-%d", c.seq))
+	}
+	return c.publishAPI(m, "", "")
+}
+
+// appendTail appends k messages straight to the partition's log: an uncommitted tail above the
+// high watermark (what a leader with a lagging follower has). They look like what the
+// partition itself stores for a message received on the stream subject.
+func (c *c10) appendTail(k int64) error {
+	for i := int64(0); i < k; i++ {
+		simrt.Sleep(time.Millisecond)
+		m := c10msg{val: fmt.Sprintf("uncommitted%d", c.seq), ts: time.Now().UnixNano()}
+		c.seq++
+		var offs []int64
+		var err error
+		c.h.do(c.n.node, "tail", func() {
+			offs, err = c.p.log.Append([]*commitlog.Message{{MagicByte: 1, Value: []byte(m.val), Timestamp: m.ts, LeaderEpoch: c.p.log.LastLeaderEpoch(),
+				Headers: map[string][]byte{"subject": []byte("s"), "reply": {}}}})
+		})
+		if err != nil || len(offs) != 1 {
+			return fmt.Errorf("tail append: %v", err)
+		}
+		m.off = offs[0]
+		c.pubs = append(c.pubs, m)
+	}
+	return nil
+}
+
+func (c *c10) setReadonly(ro bool) bool {
+	var err error
+	c.h.rpc(c.n, "readonly", func(api *apiServer) {
+		ctx, cancel := ctxT(10 * time.Second)
+		defer cancel()
+		_, err = api.SetStreamReadonly(ctx, &client.SetStreamReadonlyRequest{Name: "s", Readonly: ro})
+	})
+	if err != nil {
+		c.h.oc.Trouble = "set readonly: " + err.Error()
+		return false
+	}
+	if !c.h.pollFor("readonly-applied", 2*time.Second, func() bool { return c.p.log.IsReadonly() == ro }) {
+		c.h.oc.Trouble = "read-only flag not applied within 2 simulated seconds"
+		return false
+	}
+	simrt.Sleep(10 * time.Millisecond)
+	c.readonly = ro
+	return true
+}
+
+func (c *c10) clean() bool {
+	var err error
+	c.h.do(c.n.node, "clean", func() { err = c.p.log.Clean() })
+	if err != nil {
+		c.h.oc.Trouble = "clean: " + err.Error()
+		return false
+	}
+	return true
+}
+
+// settleAge lets the cleaner's ticks roll the aged newest segment and apply retention to the
+// rolled ones, so that the log does not change shape while requests are judged.
+func (c *c10) settleAge() {
+	if c.age {
+		simrt.Sleep(3500 * time.Millisecond)
+	}
+}
+
+// ---------------------------------------------------------------- the reference
+
+// refresh rebuilds the reference from what was published and what the log holds now, and
+// checks the log against what it has to hold.
+func (c *c10) refresh() bool {
+	h := c.h
+	// The shared log reader returns what it got when a read fails, and in programs with a ticking
+	// cleaner a read can run into a segment that retention removes at that moment. What was read
+	// is therefore compared with the number of index entries of the segments (taken at one
+	// instant); on a difference the log is read again a little later.
+	var stored []storedMsg
+	for attempt := 0; ; attempt++ {
+		var err error
+		stored, err = h.readLog(c.n, "s", 0)
+		if err != nil {
+			h.oc.Trouble = "read log: " + err.Error()
+			return false
+		}
+		_, entries, _ := c10segments(c.p.log)
+		if entries == len(stored) {
+			break
+		}
+		if attempt == 5 {
+			h.oc.Checks++
+			h.fail("C10/reference", "C10/reference/read-differs-from-index", "an uncommitted reader from offset 0 returns %d messages %s, the segments' indexes hold %d entries: %s", len(stored), c10stored(stored), entries, commitlog.DebugSegments(c.p.log))
+			return false
+		}
+		c.cnt["probe.reference_read_repeated_log_changed_meanwhile"]++
+		simrt.Sleep(50 * time.Millisecond)
+	}
+	// (an ack under the leader policy is sent when the message is written, an instant before the
+	// sole replica commits it)
+	committedInTime := h.pollFor("acked-committed", 2*time.Second, func() bool { return c.p.log.HighWatermark() >= c.lastAcked })
+	c.hw = c.p.log.HighWatermark()
+	c.all, c.committed = nil, nil
+	refFail := func(sig, format string, a ...any) bool {
+		h.fail("C10/reference", "C10/reference/"+sig, "the partition's log (read with an uncommitted reader from offset 0: %s, hw=%d) %s; published so far: %s", c10stored(stored), c.hw, fmt.Sprintf(format, a...), c10offs(c.pubs))
+		return false
+	}
+	h.oc.Checks++
+	c.cnt["probe.reference_log_checked_against_published"]++
+	pi := 0
+	for i, m := range stored {
+		if i > 0 && m.off <= stored[i-1].off {
+			return refFail("order", "is not in increasing offset order at offset %d", m.off)
+		}
+		for pi < len(c.pubs) && c.pubs[pi].off < m.off {
+			pi++
+		}
+		if pi == len(c.pubs) || c.pubs[pi].off != m.off {
+			return refFail("unknown-offset", "holds offset %d (%q), which no ack or append reported", m.off, m.val)
+		}
+		pm := c.pubs[pi]
+		if string(m.val) != pm.val || !bytes.Equal(m.key, pm.key) {
+			return refFail("content", "holds key=%q value=%q at offset %d, published there: key=%q value=%q", m.key, m.val, m.off, pm.key, pm.val)
+		}
+		if pm.ts != 0 && m.ts != pm.ts {
+			return refFail("timestamp", "holds timestamp %d at offset %d, the ack said %d", m.ts, m.off, pm.ts)
+		}
+		if pm.ts == 0 && (m.ts < pm.lo || m.ts > pm.hi) {
+			return refFail("timestamp", "holds timestamp %d at offset %d, which was sent and stored between %d and %d", m.ts, m.off, pm.lo, pm.hi)
+		}
+		pm.ts = m.ts
+		c.all = append(c.all, pm)
+		if m.off <= c.hw {
+			c.committed = append(c.committed, pm)
+		}
+	}
+	// what has to be there: without cleaning everything; under retention a suffix; under compaction the keyless messages, the latest committed message of every key
+	// and everything from the high watermark on (C08), others may remain (newest segment)
+	if len(c.pubs) > 0 {
+		lo := c.pubs[0].off
+		if c.trim {
+			// (retention may remove every segment but the newest, and the newest may be empty)
+			lo = c.pubs[len(c.pubs)-1].off + 1
+			if len(c.all) > 0 {
+				lo = c.all[0].off
+			}
+		}
+		latest := map[string]int64{}
+		for _, m := range c.pubs {
+			if len(m.key) > 0 && m.off <= c.hw {
+				latest[string(m.key)] = m.off
+			}
+		}
+		si := 0
+		for _, m := range c.pubs {
+			if m.off < lo {
+				continue
+			}
+			for si < len(c.all) && c.all[si].off < m.off {
+				si++
+			}
+			have := si < len(c.all) && c.all[si].off == m.off
+			must := !c.compact || len(m.key) == 0 || m.off >= c.hw || latest[string(m.key)] == m.off
+			if must && !have {
+				return refFail("retained-message-missing", "lacks offset %d (key=%q value=%q), which neither compaction nor retention may have removed", m.off, m.key, m.val)
+			}
+		}
+	}
+	if !committedInTime {
+		return refFail("acked-above-hw", "has its high watermark below offset %d, which was acknowledged more than 2 simulated seconds ago (one replica)", c.lastAcked)
+	}
+	// the oldest message is the first one the log still holds; the newest one is the last one that
+	// was published (a log that retention has emptied still ends there)
+	c.oldest, c.newest = -1, -1
+	if len(c.all) > 0 {
+		c.oldest = c.all[0].off
+	}
+	if len(c.pubs) > 0 {
+		c.newest = c.pubs[len(c.pubs)-1].off
+	}
+	c.emptied = len(c.all) == 0 && len(c.pubs) > 0
+	if c.emptied {
+		c.cnt["probe.reference_rebuilt_on_log_emptied_by_retention"]++
+	}
+	c.nsegs, _, c.activeEmpty = c10segments(c.p.log)
+	if c.activeEmpty {
+		c.cnt["probe.reference_rebuilt_while_newest_segment_empty"]++
+	}
+	if c.verbose {
+		h.s.Logf("log: %d stored, %d committed, oldest=%d newest=%d hw=%d readonly=%v segments: %s", len(c.all), len(c.committed), c.oldest, c.newest, c.hw, c.readonly, commitlog.DebugSegments(c.p.log))
+		for _, m := range c.all {
+			h.s.Logf("   off=%d ts=%d key=%q", m.off, m.ts, m.key)
+		}
+	}
+	return true
+}
+
+// c10segments: number of segments, number of index entries over all of them, and whether the
+// newest segment is an empty segment behind others.
+func c10segments(l commitlog.CommitLog) (nsegs, entries int, lastEmpty bool) {
+	s := commitlog.DebugSegments(l)
+	last := -1
+	for {
+		i := strings.Index(s, "entries=")
+		if i < 0 {
+			break
+		}
+		s = s[i+len("entries="):]
+		j := strings.IndexByte(s, ' ')
+		if j < 0 {
+			break
+		}
+		e, err := strconv.Atoi(s[:j])
+		if err != nil {
+			break
+		}
+		nsegs++
+		entries += e
+		last = e
+	}
+	return nsegs, entries, last == 0 && nsegs > 1
+}
+
+// ---------------------------------------------------------------- requests and what they must do
+
+// pick maps a permille value to an index into the retained messages.
+func (c *c10) pick(permille int64) int {
+	if permille < 0 {
+		permille = 0
+	}
+	if permille > 999 {
+		permille = 999
+	}
+	return int(permille * int64(len(c.all)) / 1000)
+}
+
+func (c *c10) tsAt(permille, edge int64) int64 {
+	if len(c.all) == 0 {
+		return time.Now().UnixNano() - int64(time.Second) + permille*int64(time.Millisecond)
+	}
+	if edge > 0 {
+		return c.all[c.pick(permille)].ts + edge - 2
+	}
+	lo, hi := c.all[0].ts-int64(5*time.Millisecond), c.all[len(c.all)-1].ts+int64(5*time.Millisecond)
+	return lo + (hi-lo)*permille/1000
+}
+
+func (c *c10) offAt(permille, edge int64) int64 {
+	if edge > 0 && len(c.all) > 0 {
+		o := c.all[c.pick(permille)].off + edge - 2
+		if o < 0 {
+			o = 0
+		}
+		return o
+	}
+	span := c.newest + 4
+	if span < 4 {
+		span = 4
+	}
+	o := permille * span / 1000
+	if o < 0 {
+		o = 0
+	}
+	return o
+}
+
+func (c *c10) shapeOf(op hx.Op) c10shape {
+	sh := c10shape{startKind: op.Arg(0, 0), stopKind: op.Arg(2, 0), reverse: op.Arg(4, 0) == 1}
+	se, te := op.Arg(6, 0), op.Arg(7, 0)
+	switch sh.startKind {
+	case 1:
+		sh.startOff = c.offAt(op.Arg(1, 0), se)
+		if se > 0 && len(c.all) > 0 {
+			c.cnt["probe.start_offset_next_to_a_retained_message"]++
+		}
+	case 4:
+		sh.startTs = c.tsAt(op.Arg(1, 0), se)
+		if se > 0 && len(c.all) > 0 {
+			c.cnt["probe.start_timestamp_at_message_time_-1_0_+1"]++
+		}
+	}
+	switch sh.stopKind {
+	case 1:
+		sh.stopOff = c.offAt(op.Arg(3, 0), te)
+	case 3:
+		sh.stopTs = c.tsAt(op.Arg(3, 0), te)
+		if te > 0 && len(c.all) > 0 {
+			c.cnt["probe.stop_timestamp_at_message_time_-1_0_+1"]++
+		}
+	}
+	return sh
+}
+
+// knownShape: see c10AvoidEmptyActiveSegmentTimestamps and c10AvoidStopOnEmptiedLog.
+func (c *c10) knownShape(sh c10shape) bool {
+	if c.avoidEmptyTs && c.activeEmpty && (sh.startKind == 4 || sh.stopKind == 3) {
+		return true
+	}
+	return c.avoidEmptiedStop && c.emptied && !sh.reverse && sh.stopKind >= 1 && sh.stopKind <= 3
+}
+
+// expect turns a request shape into the request and its expected outcome on the log as it stands.
+func (c *c10) expect(sh c10shape) (*client.SubscribeRequest, *c10exp) {
+	sreq := &client.SubscribeRequest{Stream: "s", Partition: 0, Reverse: sh.reverse}
+	x := &c10exp{spec: true, E: -1, reverse: sh.reverse}
+	all, committed, newest, oldest, hw, readonly := c.all, c.committed, c.newest, c.oldest, c.hw, c.readonly
+	// ---- start position: lower bound S of the requested range
+	var S int64
+	undefined := false
+	switch sh.startKind {
+	case 0:
+		sreq.StartPosition = client.StartPosition_NEW_ONLY
+		S = newest + 1
+		x.desc = "start=NEW_ONLY"
+	case 1:
+		sreq.StartPosition = client.StartPosition_OFFSET
+		sreq.StartOffset = sh.startOff
+		S = sh.startOff
+		x.desc = fmt.Sprintf("start=OFFSET(%d)", S)
+	case 2:
+		sreq.StartPosition = client.StartPosition_EARLIEST
+		S = oldest
+		if S < 0 {
+			S = 0
+		}
+		x.desc = "start=EARLIEST"
+	case 3:
+		sreq.StartPosition = client.StartPosition_LATEST
+		S = newest
+		if S < 0 {
+			S = 0
+		}
+		x.desc = "start=LATEST"
+	case 4:
+		sreq.StartPosition = client.StartPosition_TIMESTAMP
+		sreq.StartTimestamp = sh.startTs
+		S = newest + 1
+		for _, m := range all {
+			if m.ts >= sreq.StartTimestamp {
+				S = m.off
+				break
+			}
+		}
+		x.desc = fmt.Sprintf("start=TIMESTAMP(%d -> first offset %d)", sreq.StartTimestamp, S)
+		if c.verbose {
+			got, err := c.p.log.EarliestOffsetAfterTimestamp(sreq.StartTimestamp)
+			c.h.s.Logf("EarliestOffsetAfterTimestamp(%d) = %d %v; model %d", sreq.StartTimestamp, got, err, S)
+		}
+	default:
+		sreq.StartPosition = client.StartPosition(sh.startKind)
+		x.desc = fmt.Sprintf("start=<undefined position %d>", sh.startKind)
+		undefined = true
+	}
+	// A start offset that exceeds the high watermark is served as "wait for the next message":
+	// the subscription starts at HW+1 (documented by the repository's TestSubscribeOffsetOverflow
+	// and by newReaderCommitted). Reverse subscriptions clamp to the HW instead.
+	Sreq := S
+	if !sh.reverse && S > hw {
+		S = hw + 1
+		x.desc += fmt.Sprintf("[beyond hw: effective start %d]", S)
+	}
+	// ---- stop position: inclusive upper bound E (-1: none)
+	E := int64(-1)
+	Ehi := int64(-1) // stop timestamp: the largest offset the stop may resolve to (the next retained offset - 1)
+	emptyStop := false
+	switch sh.stopKind {
+	case 0:
+		sreq.StopPosition = client.StopPosition_STOP_ON_CANCEL
+		x.desc += " stop=ON_CANCEL"
+	case 1:
+		sreq.StopPosition = client.StopPosition_STOP_OFFSET
+		sreq.StopOffset = sh.stopOff
+		E = sh.stopOff
+		x.desc += fmt.Sprintf(" stop=OFFSET(%d)", E)
+	case 2:
+		sreq.StopPosition = client.StopPosition_STOP_LATEST
+		E = newest
+		if newest == -1 {
+			emptyStop = true
+		}
+		x.desc += fmt.Sprintf(" stop=LATEST(%d)", E)
+	case 3:
+		sreq.StopPosition = client.StopPosition_STOP_TIMESTAMP
+		sreq.StopTimestamp = sh.stopTs
+		E = -2
+		for k, m := range all {
+			if m.ts <= sreq.StopTimestamp {
+				E = m.off
+				Ehi = E
+				if k+1 < len(all) {
+					Ehi = all[k+1].off - 1
+				}
+			}
+		}
+		if E == -2 {
+			x.spec = false // a stop time before the first message: no documented outcome
+		}
+		x.desc += fmt.Sprintf(" stop=TIMESTAMP(%d -> last offset %d)", sreq.StopTimestamp, E)
+	default:
+		sreq.StopPosition = client.StopPosition(sh.stopKind)
+		x.desc += fmt.Sprintf(" stop=<undefined position %d>", sh.stopKind)
+		undefined = true
+	}
+	if sh.reverse {
+		x.desc += " reverse"
+	}
+	x.S, x.Sreq, x.E = S, Sreq, E
+	if undefined {
+		// a position value outside the enumeration is a malformed request: refused, nothing delivered
+		x.spec, x.ends, x.codes = true, true, []codes.Code{codes.InvalidArgument}
+		return sreq, x
+	}
+	if sh.reverse {
+		if sreq.StopPosition != client.StopPosition_STOP_ON_CANCEL {
+			x.spec = false // reverse with a stop position: meaning not documented
+		}
+		if sreq.StartPosition == client.StartPosition_NEW_ONLY || sreq.StartPosition == client.StartPosition_TIMESTAMP || readonly {
+			x.spec = false
+		}
+	}
+	if !x.spec {
+		return sreq, x
+	}
+	// ---- expected deliveries
+	re := []codes.Code{codes.ResourceExhausted}
+	switch {
+	case sh.reverse:
+		for j := len(committed) - 1; j >= 0; j-- {
+			if committed[j].off <= S {
+				x.want = append(x.want, committed[j])
+			}
+		}
+		x.ends = true // at the beginning of the log; with which status is not documented
+	case emptyStop:
+		// "stop at the latest message" of an empty stream: ends at once (TestSubscribeStopPosition)
+		x.ends, x.codes = true, re
+	case E >= 0 && E < Sreq:
+		// The stop lies before the start. Both given as offsets: the request contradicts itself and
+		// is refused as such. When the server resolved one of them (new-only with stop-at-latest,
+		// earliest on a trimmed log with an old stop offset, ...) "stop position reached" is as good
+		// a reading: either status, but it ends and delivers nothing.
+		x.ends = true
+		if sh.startKind == 1 && sh.stopKind == 1 {
+			x.codes = []codes.Code{codes.InvalidArgument}
+		} else {
+			x.codes = []codes.Code{codes.InvalidArgument, codes.ResourceExhausted}
+		}
+		if sh.stopKind == 3 && Sreq <= Ehi {
+			// a start offset inside the compaction gap that follows the message the stop time selects:
+			// whether the stop is before the start depends on which offset of the gap stands for the time
+			x.spec = false
+		}
+	default:
+		for _, m := range committed {
+			if m.off >= S && (E < 0 || m.off <= E) {
+				x.want = append(x.want, m)
+			}
+		}
+		switch {
+		case readonly && hw < newest && Sreq > newest:
+			// read-only with an uncommitted tail and nothing in range: ends or waits, not documented
+			x.spec = false
+		case readonly && hw < newest && !(E >= 0 && E <= hw):
+			// read-only, but the end of the log is not committed yet: the subscription has not reached
+			// "the end of the log" and keeps waiting for the high watermark
+		case readonly && Sreq > newest:
+			// nothing can ever be in range on a read-only partition: it ends; with which status is not documented
+			x.ends = true
+		case E >= 0 && E <= hw:
+			x.ends, x.codes = true, re
+		case readonly && hw >= newest:
+			// a read-only partition ends at the end of its log, whatever else was asked for
+			x.ends, x.codes = true, re
+			if S > newest {
+				x.codes = nil // nothing in range at all: any terminating status is accepted
+			}
+		}
+	}
+	return sreq, x
+}
+
+// compare judges what was delivered so far against x.want: content, order, nothing else, and
+// every field of the delivered messages.
+func (c *c10) compare(x *c10exp, st *subStream) {
+	got := append([]*client.Message{}, st.msgs...)
+	want := x.want
+	hw := c.hw
+	c.h.oc.Checks++
+	for k := 0; k < len(got) && k < len(want); k++ {
+		if got[k].Offset != want[k].off || string(got[k].Value) != want[k].val || got[k].Timestamp != want[k].ts {
+			kind := "wrong-message"
+			if !x.reverse && got[k].Offset < x.S {
+				kind = "before-start"
+			}
+			if got[k].Offset > hw {
+				kind = "uncommitted"
+			}
+			c.fail(x, kind, "delivery %d is offset %d (%q, timestamp %d), expected offset %d (%q, timestamp %d); delivered %s", k, got[k].Offset, got[k].Value, got[k].Timestamp, want[k].off, want[k].val, want[k].ts, c10got(got))
+			return
+		}
+	}
+	if len(got) > len(want) {
+		kind := "extra"
+		g := got[len(want)]
+		switch {
+		case x.E >= 0 && g.Offset > x.E:
+			kind = "beyond-stop"
+		case g.Offset > hw:
+			kind = "uncommitted"
+		case !x.reverse && g.Offset < x.S:
+			kind = "before-start"
+		}
+		c.fail(x, kind, "delivered %s, expected only %s", c10got(got), c10offs(want))
+		return
+	} else if len(got) < len(want) {
+		c.fail(x, "missing", "delivered %s, expected %s (ended=%v err=%v)", c10got(got), c10offs(want), st.ended, st.err)
+		return
+	}
+	// the other fields of a delivered message (api.proto): the stream and partition it belongs to,
+	// its key and headers as published, the NATS subject it was received on and the reply subject
+	// it carried. The headers "subject" and "reply" are the server's: their values are not judged.
+	for k, g := range got {
+		w := want[k]
+		c.cnt["probe.delivered_messages_compared_field_by_field"]++
+		problem := ""
+		switch {
+		case g.Stream != "s" || g.Partition != 0:
+			problem = fmt.Sprintf("stream=%q partition=%d, subscribed to s/0", g.Stream, g.Partition)
+		case !bytes.Equal(g.Key, w.key):
+			problem = fmt.Sprintf("key %q, published with key %q", g.Key, w.key)
+		case g.Subject != "s":
+			problem = fmt.Sprintf("subject %q, it was received on subject \"s\"", g.Subject)
+		case g.ReplySubject != w.reply:
+			problem = fmt.Sprintf("reply subject %q, it was received with reply subject %q", g.ReplySubject, w.reply)
+		}
+		if problem == "" {
+			var names []string
+			for name := range w.hdr {
+				names = append(names, name)
+			}
+			sort.Strings(names)
+			for _, name := range names {
+				if name == "subject" || name == "reply" {
+					continue
+				}
+				if v, ok := g.Headers[name]; !ok || !bytes.Equal(v, w.hdr[name]) {
+					problem = fmt.Sprintf("header %q = %q (present=%v), published with %q", name, v, ok, w.hdr[name])
+					break
+				}
+			}
+			names = names[:0]
+			for name := range g.Headers {
+				if _, ok := w.hdr[name]; !ok && name != "subject" && name != "reply" {
+					names = append(names, name)
+				}
+			}
+			sort.Strings(names)
+			if problem == "" && len(names) > 0 {
+				problem = fmt.Sprintf("headers %q that were not published", names)
+			}
+		}
+		if problem != "" {
+			c.fail(x, "fields", "delivery %d (offset %d) carries %s", k, g.Offset, problem)
+			return
+		}
+	}
+}
+
+// ---------------------------------------------------------------- one request against the log as it stands
+
+func (c *c10) subOp(i int, op hx.Op) (judged, unspecified bool) {
+	h := c.h
+	sh := c.shapeOf(op)
+	if c.knownShape(sh) {
+		c.cnt["probe.requests_not_issued_reported_shape"]++
+		return false, false
+	}
+	sreq, x := c.expect(sh)
+	if !x.spec {
+		return false, true
+	}
+	if c.activeEmpty {
+		c.cnt["probe.requests_judged_while_newest_segment_empty"]++
+	}
+	if sh.reverse {
+		c.cnt["probe.reverse_requests_judged"]++
+		if op.Arg(6, 0) > 0 && sh.startKind == 1 {
+			c.cnt["probe.reverse_requests_judged_start_next_to_a_retained_message"]++
+		}
+	}
+	h.s.Logf("request %d: %s", i, x.desc)
+	ctx, cancel := ctxT(time.Hour)
+	defer cancel()
+	st := h.subscribe(c.n, ctx, sreq)
+	// wait until it ended, or everything expected arrived and 5 more simulated seconds passed
+	h.waitFor("sub-progress", 20*time.Second, func() bool { return st.ended || len(st.msgs) >= len(x.want) })
+	if !st.ended {
+		h.waitFor("sub-settle", 5*time.Second, func() bool { return st.ended })
+	}
+	c.compare(x, st)
+	if h.stop {
+		return true, false
+	}
+	// termination and status
+	if x.ends {
+		c.judgeEnd(x, st)
+	} else if st.ended {
+		c.fail(x, "ends-early", "ended with %v although it should keep waiting for new messages", st.err)
+	} else {
+		c.cnt["probe.requests_that_keep_waiting"]++
+		if op.Arg(5, 0) == 1 && !c.readonly && !h.stop {
+			// it keeps waiting: new committed messages inside the range must arrive, others must not,
+			// and when the high watermark thereby passes the stop position it must end
+			prevHW := c.hw
+			for k := 0; k < 2; k++ {
+				simrt.Sleep(2 * time.Millisecond)
+				if err := c.publishNext(fmt.Sprintf("later-%d-%d", i, k)); err != nil {
+					h.oc.Trouble = err.Error()
+					return true, false
+				}
+			}
+			simrt.Sleep(10 * time.Millisecond)
+			if !c.refresh() {
+				return true, false
+			}
+			l := &c10live{x: x, st: st}
+			c.advance([]*c10live{l}, prevHW, "after two more messages were committed")
+			c.cnt["probe.waiting_requests_fed_new_messages"]++
+			if l.done {
+				c.cnt["probe.waiting_requests_ended_when_hw_passed_their_stop"]++
+			}
+			if c.age && !h.stop {
+				c.settleAge()
+				if !c.refresh() {
+					return true, false
+				}
+			}
+		}
+	}
+	if h.stop {
+		return true, false
+	}
+	cancel()
+	h.waitFor("sub-cancelled", 5*time.Second, func() bool { return st.ended })
+	if !st.ended && !h.stop {
+		c.fail(x, "cancel", "did not return after its context was cancelled")
+	}
+	return true, false
+}
+
+// judgeEnd: the subscription has to have ended by itself, with one of the accepted codes.
+func (c *c10) judgeEnd(x *c10exp, st *subStream) {
+	c.h.oc.Checks++
+	if !st.ended {
+		c.fail(x, "does-not-end", "delivered %s and then did not end within 5 simulated seconds (expected status %v)", c10got(st.msgs), x.codes)
+		return
+	}
+	if st.err == nil {
+		c.fail(x, "status", "ended without a status, expected %v", x.codes)
+		return
+	}
+	if x.codes == nil {
+		return
+	}
+	if len(x.want) == 0 {
+		c.cnt["probe.status_judged_with_nothing_to_deliver"]++
+	}
+	code := status.Code(st.err)
+	for _, ok := range x.codes {
+		if code == ok {
+			if code == codes.InvalidArgument {
+				c.cnt["probe.status_invalid_argument_judged"]++
+			}
+			return
+		}
+	}
+	c.fail(x, "status", "ended with %v, expected status code %v", st.err, x.codes)
+}
+
+// advance: the log changed (the reference has been rebuilt). Every open subscription has to
+// deliver what became committed inside its range since prevHW, exactly that, and has to end with
+// ResourceExhausted once the high watermark reached its stop position or the partition is
+// read-only and read to its end; otherwise it has to stay open.
+func (c *c10) advance(subs []*c10live, prevHW int64, what string) {
+	h := c.h
+	for _, l := range subs {
+		if l.done || h.stop {
+			continue
+		}
+		x, st := l.x, l.st
+		for _, m := range c.committed {
+			if m.off > prevHW && m.off >= x.S && (x.E < 0 || m.off <= x.E) {
+				x.want = append(x.want, m)
+			}
+		}
+		shouldEnd := x.E >= 0 && c.hw >= x.E || c.readonly && c.hw >= c.newest
+		h.waitFor("live-progress", 5*time.Second, func() bool { return st.ended || len(st.msgs) >= len(x.want) })
+		if shouldEnd {
+			h.waitFor("live-end", 5*time.Second, func() bool { return st.ended })
+		} else {
+			h.waitFor("live-settle", time.Second, func() bool { return st.ended })
+		}
+		before := x.desc
+		x.desc += " [" + what + "]"
+		c.compare(x, st)
+		if !h.stop {
+			if shouldEnd {
+				x.codes = []codes.Code{codes.ResourceExhausted}
+				c.judgeEnd(x, st)
+				l.done = true
+			} else if st.ended {
+				c.fail(x, "ends-early", "ended with %v although it should keep waiting for new messages", st.err)
+			}
+		}
+		x.desc = before
+	}
+}
+
+// ---------------------------------------------------------------- the log changes under open subscriptions
+
+func (c *c10) liveShape(lr *simrt.Rand, scen int64) c10shape {
+	sh := c10shape{}
+	n := int64(len(c.all))
+	switch k := lr.Intn(20); {
+	case k < 5:
+		sh.startKind = 0
+	case k < 11:
+		sh.startKind = 1
+		if n > 0 && lr.Pct(80) {
+			sh.startOff = c.all[lr.Intn(int(n))].off + int64(lr.Intn(3)) - 1
+			if sh.startOff < 0 {
+				sh.startOff = 0
+			}
+		} else {
+			sh.startOff = c.newest + 1 + int64(lr.Intn(3))
+		}
+	case k < 14:
+		sh.startKind = 2
+	case k < 17:
+		sh.startKind = 3
+	default:
+		sh.startKind = 4
+		sh.startTs = c.tsAt(int64(lr.Intn(1000)), int64(1+lr.Intn(3)))
+	}
+	if scen != 3 {
+		if lr.Pct(30) {
+			sh.stopKind, sh.stopOff = 1, c.newest+1+int64(lr.Intn(3))
+		}
+		return sh
+	}
+	// a stop position inside the uncommitted tail
+	var tail []c10msg
+	for _, m := range c.all {
+		if m.off > c.hw {
+			tail = append(tail, m)
+		}
+	}
+	if len(tail) == 0 {
+		return sh
+	}
+	t := tail[lr.Intn(len(tail))]
+	switch k := lr.Intn(4); k {
+	case 0, 1:
+		sh.stopKind, sh.stopOff = 1, t.off
+	case 2:
+		sh.stopKind = 2
+	default:
+		sh.stopKind, sh.stopTs = 3, t.ts+int64(lr.Intn(3))-1
+	}
+	return sh
+}
+
+func (c *c10) setHW(hw int64) {
+	c.h.do(c.n.node, "set-hw", func() { c.p.log.SetHighWatermark(hw) })
+	simrt.Sleep(time.Millisecond)
+}
+
+// liveOp reports whether the program can go on.
+func (c *c10) liveOp(i int, op hx.Op) bool {
+	h := c.h
+	lr := simrt.NewRand(uint64(op.Arg(2, 1)))
+	scen, k, variant := op.Arg(0, 0), int(1+op.Arg(1, 0)%3), op.Arg(3, 0)
+	// scenarios: 0 read-only flag set while parked, 1 clean then publish, 2 one publish (or one
+	// high-watermark change) wakes all, 3 stop position inside an uncommitted tail, HW raised stepwise,
+	// 4 (programs with a ticking cleaner and retention) more messages than the limit are published,
+	// the ticks roll the segment and apply retention while the subscriptions are parked, then publish
+	if scen == 4 && !(c.age && c.trim && !c.readonly && c.hw >= c.newest) {
+		scen = 2
+	}
+	if scen == 1 && (c.readonly || c.hw < c.newest || !(c.compact || c.trim) || c.age) {
+		scen = 2
+	}
+	if scen < 0 || scen > 4 {
+		scen = 2
+	}
+	if scen == 2 && c.readonly {
+		scen = 3
+	}
+	if scen == 3 && c.readonly && c.hw >= c.newest {
+		scen = 0 // nothing can change on this log but the flag
+	}
+	wasReadonly := c.readonly
+	if scen == 0 && c.readonly && !c.setReadonly(false) {
+		return false
+	}
+	if scen == 3 && c.hw >= c.newest {
+		if c.age && c.trim && c.avoidTrimAboveHW {
+			c.cnt["probe.live_not_applicable_nothing_can_change_on_this_log"]++
+			return true
+		}
+		if err := c.appendTail(int64(1 + lr.Intn(3))); err != nil {
+			h.oc.Trouble = err.Error()
+			return false
+		}
+		if !c.refresh() {
+			return false
+		}
+	}
+	if scen == 2 && k < 2 {
+		k = 2
+	}
+	name := []string{"read-only flag set under parked subscriptions", "clean, then publish, under parked subscriptions", "one commit wakes several subscriptions", "stop position inside the uncommitted tail, high watermark raised stepwise",
+		"the cleaner's ticks roll and trim the log under parked subscriptions"}[scen]
+	h.s.Logf("op %d: live scenario %d (%s), %d subscriptions", i, scen, name, k)
+	var subs []*c10live
+	defer func() {
+		for _, l := range subs {
+			l.cancel()
+		}
+	}()
+	for j := 0; j < k; j++ {
+		for try := 0; try < 8; try++ {
+			sh := c.liveShape(lr, scen)
+			if c.knownShape(sh) {
+				continue
+			}
+			sreq, x := c.expect(sh)
+			if !x.spec || x.ends {
+				continue
+			}
+			x.desc = fmt.Sprintf("[%s, subscription %d of %d] %s", name, j+1, k, x.desc)
+			ctx, cancel := ctxT(time.Hour)
+			subs = append(subs, &c10live{x: x, st: h.subscribe(c.n, ctx, sreq), cancel: cancel})
+			break
+		}
+	}
+	if len(subs) == 0 {
+		c.cnt["probe.live_not_applicable_no_open_ended_request_drawn"]++
+		return true
+	}
+	c.judged += len(subs)
+	// they deliver what is in range now and stay open
+	c.advance(subs, c.hw, "opened")
+	step := func(what string, prevHW int64) bool {
+		if h.stop {
+			return false
+		}
+		if !c.refresh() {
+			return false
+		}
+		c.advance(subs, prevHW, what)
+		return !h.stop
+	}
+	publish := func(nm int, what string) bool {
+		prevHW := c.hw
+		for m := 0; m < nm; m++ {
+			simrt.Sleep(2 * time.Millisecond)
+			if err := c.publishNext(fmt.Sprintf("live-%d-%d", i, c.seq)); err != nil {
+				h.oc.Trouble = err.Error()
+				return false
+			}
+		}
+		simrt.Sleep(5 * time.Millisecond)
+		return step(what, prevHW)
+	}
+	raise := func(by int64) bool {
+		// the high watermark moves towards the end of the log, as when a follower catches up
+		for c.hw < c.newest && !h.stop {
+			prevHW := c.hw
+			to := c.hw
+			for n := int64(0); n < by; n++ {
+				for _, m := range c.all {
+					if m.off > to {
+						to = m.off
+						break
+					}
+				}
+			}
+			c.setHW(to)
+			if !step(fmt.Sprintf("high watermark raised from %d to %d", prevHW, to), prevHW) {
+				return false
+			}
+		}
+		return !h.stop
+	}
+	ok := true
+	switch scen {
+	case 0:
+		if variant&1 == 1 {
+			ok = publish(1, "one more message was committed")
+		}
+		if ok {
+			prevHW := c.hw
+			if !c.setReadonly(true) {
+				return false
+			}
+			ok = step("the partition was set read-only", prevHW)
+		}
+		if ok && c.hw < c.newest {
+			ok = raise(1)
+		}
+		if ok {
+			c.cnt["probe.live_readonly_set_under_parked_subscriptions"]++
+		}
+		// most of the time the partition afterwards is what it was before
+		if ro := wasReadonly != (variant&6 == 6); ro != c.readonly && !h.stop {
+			if !c.setReadonly(ro) {
+				return false
+			}
+		}
+	case 1:
+		prevHW := c.hw
+		if !c.clean() {
+			return false
+		}
+		ok = step("the log was cleaned", prevHW)
+		if ok {
+			ok = publish(1+lr.Intn(3), "the log was cleaned and more messages were committed")
+		}
+		if ok {
+			c.cnt["probe.live_clean_then_publish_under_parked_subscriptions"]++
+		}
+	case 2:
+		if c.hw < c.newest && variant&1 == 1 {
+			prevHW := c.hw
+			c.setHW(c.newest)
+			ok = step("the high watermark jumped to the end of the log", prevHW)
+		} else {
+			ok = publish(1, "one more message was committed")
+		}
+		if ok && len(subs) >= 2 {
+			c.cnt["probe.live_several_subscriptions_woken_by_one_hw_change"]++
+		}
+	case 4:
+		nm, what := int(4+c.prog.Param("msgs", 0)/3), "more messages than the retention limit were committed"
+		if c.prog.Param("avoid_trim_under_parked", 1) == 1 {
+			nm, what = 2, "two more messages were committed" // see c10AvoidTrimUnderParked
+		}
+		ok = publish(nm, what)
+		if ok {
+			prevHW := c.hw
+			c.settleAge()
+			ok = step("the cleaner's ticks rolled the newest segment and applied retention", prevHW)
+		}
+		if ok {
+			if c.emptied {
+				c.cnt["probe.live_log_emptied_by_retention_under_parked_subscriptions"]++
+			}
+			ok = publish(1, "retention ran under the parked subscription and one more message was committed")
+		}
+		if ok {
+			c.cnt["probe.live_ticks_roll_and_trim_under_parked_subscriptions"]++
+		}
+	case 3:
+		ok = raise(1 + variant&1)
+		if ok {
+			c.cnt["probe.live_stop_inside_uncommitted_tail_hw_stepwise"]++
+			for _, l := range subs {
+				if l.done {
+					c.cnt["probe.live_subscriptions_ended_at_stop_after_late_delivery"]++
+				}
+			}
+		}
+	}
+	if h.stop || h.oc.Trouble != "" {
+		return false
+	}
+	for _, l := range subs {
+		l.cancel()
+	}
+	for _, l := range subs {
+		st := l.st
+		h.waitFor("sub-cancelled", 5*time.Second, func() bool { return st.ended })
+		if !st.ended && !h.stop {
+			c.fail(l.x, "cancel", "did not return after its context was cancelled")
+		}
+	}
+	if c.age && !h.stop {
+		c.settleAge()
+	}
+	return c.refresh()
 }
 
 func execC10(t *testing.T, prog *hx.Program, dec *simrt.Decider, verbose bool) *hx.Outcome {
-	judged, unspecified, kept, laterJudged := 0, 0, 0, 0
+	judged, unspecified := 0, 0
+	cnt := map[string]int{}
 	oc := runH3(t, prog, dec, verbose, 1, func(h *h3) {
 		n := h.single()
 		if n == nil {
 			return
 		}
-		r := simrt.NewRand(uint64(prog.Param("seed", 1)))
+		c := &c10{h: h, n: n, prog: prog, verbose: verbose, cnt: cnt, lastAcked: -1,
+			r:       simrt.NewRand(uint64(prog.Param("seed", 1))),
+			compact: prog.Param("compact", 0) == 1, trim: prog.Param("trim", 0) > 0, age: prog.Param("age", 0) == 1, rich: prog.Param("rich", 0) == 1,
+			avoidEmptyTs: prog.Param("avoid_empty_active_ts", 1) == 1, avoidEmptiedStop: prog.Param("avoid_emptied_log_stop", 1) == 1, avoidTrimAboveHW: prog.Param("avoid_trim_above_hw", 1) == 1}
 		req := &client.CreateStreamRequest{Name: "s", Subject: "s", Partitions: 1, ReplicationFactor: 1,
 			SegmentMaxBytes: &client.NullableInt64{Value: prog.Param("seg", 200)},
 			CleanerInterval: &client.NullableInt64{Value: int64(24 * time.Hour / time.Millisecond)}}
-		if prog.Param("compact", 0) == 1 {
+		if c.age {
+			req.CleanerInterval = &client.NullableInt64{Value: 1000}
+			req.SegmentMaxAge = &client.NullableInt64{Value: 1000}
+		}
+		if c.compact {
 			req.CompactEnabled = nb(true)
 		}
-		if prog.Param("trim", 0) > 0 {
+		if c.trim {
 			req.RetentionMaxMessages = &client.NullableInt64{Value: 3 + prog.Param("msgs", 0)/3}
 		}
 		var cerr error
@@ -81,406 +1354,61 @@ func execC10(t *testing.T, prog *hx.Program, dec *simrt.Decider, verbose bool) *
 			h.oc.Trouble = "create stream: " + cerr.Error()
 			return
 		}
-		publish := func(key, val string) (int64, error) {
-			var resp *client.PublishResponse
-			var err error
-			h.rpc(n, "publish", func(api *apiServer) {
-				ctx, cancel := ctxT(5 * time.Second)
-				defer cancel()
-				var k []byte
-				if key != "" {
-					k = []byte(key)
-				}
-				resp, err = api.Publish(ctx, &client.PublishRequest{Stream: "s", Key: k, Value: []byte(val), AckPolicy: client.AckPolicy_LEADER})
-			})
-			if err != nil || resp == nil || resp.Ack == nil {
-				return -1, fmt.Errorf("publish: %v", err)
-			}
-			return resp.Ack.Offset, nil
+		c.p = n.srv.metadata.GetPartition("s", 0)
+		if c.p == nil {
+			h.oc.Trouble = "no partition"
+			return
 		}
 		nmsgs := int(prog.Param("msgs", 0))
 		for i := 0; i < nmsgs; i++ {
-			key := ""
-			if prog.Param("compact", 0) == 1 && r.Pct(75) {
-				key = string(rune('a' + r.Intn(4)))
-			}
-			if _, err := publish(key, fmt.Sprintf("m%d", i)); err != nil {
+			if err := c.publishNext(fmt.Sprintf("m%d", i)); err != nil {
 				h.oc.Trouble = err.Error()
 				return
 			}
 			// message timestamps are kept distinct: what "the offset at a timestamp" means when several
 			// messages carry the same nanosecond timestamp is not part of what is judged here
-			simrt.Sleep(time.Duration(1+r.Intn(30)) * time.Millisecond)
+			simrt.Sleep(time.Duration(1+c.r.Intn(30)) * time.Millisecond)
 		}
-		p := n.srv.metadata.GetPartition("s", 0)
-		if p == nil {
-			h.oc.Trouble = "no partition"
+		if nmsgs > 0 && (c.compact || c.trim) {
+			if !c.clean() {
+				return
+			}
+		}
+		if err := c.appendTail(prog.Param("tail", 0)); err != nil {
+			h.oc.Trouble = err.Error()
 			return
 		}
-		if nmsgs > 0 && (prog.Param("compact", 0) == 1 || prog.Param("trim", 0) > 0) {
-			var err error
-			h.do(n.node, "clean", func() { err = p.log.Clean() })
-			if err != nil {
-				h.oc.Trouble = "clean: " + err.Error()
-				return
-			}
-		}
-		// an uncommitted tail above the high watermark (what a leader with a lagging follower has)
-		for i := int64(0); i < prog.Param("tail", 0); i++ {
-			var err error
-			simrt.Sleep(time.Millisecond)
-			h.do(n.node, "tail", func() {
-				_, err = p.log.Append([]*commitlog.Message{{MagicByte: 2, Value: []byte(fmt.Sprintf("uncommitted%d", i)), Timestamp: time.Now().UnixNano(), LeaderEpoch: p.log.LastLeaderEpoch()}})
-			})
-			if err != nil {
-				h.oc.Trouble = "tail append: " + err.Error()
-				return
-			}
-		}
-		readonly := prog.Param("readonly", 0) == 1
-		if readonly {
-			var err error
-			h.rpc(n, "readonly", func(api *apiServer) {
-				ctx, cancel := ctxT(10 * time.Second)
-				defer cancel()
-				_, err = api.SetStreamReadonly(ctx, &client.SetStreamReadonlyRequest{Name: "s", Readonly: true})
-			})
-			if err != nil {
-				h.oc.Trouble = "set readonly: " + err.Error()
+		c.settleAge()
+		if prog.Param("readonly", 0) == 1 {
+			if !c.setReadonly(true) {
 				return
 			}
 		}
 		simrt.Sleep(10 * time.Millisecond)
-		// the reference: retained messages, the high watermark
-		stored, err := h.readLog(n, "s", 0)
-		if err != nil {
-			h.oc.Trouble = "read log: " + err.Error()
+		if !c.refresh() {
 			return
 		}
-		hw := p.log.HighWatermark()
-		var all, committed []c10msg
-		for _, m := range stored {
-			cm := c10msg{m.off, m.ts, string(m.val)}
-			all = append(all, cm)
-			if m.off <= hw {
-				committed = append(committed, cm)
-			}
-		}
-		newest := p.log.NewestOffset()
-		oldest := p.log.OldestOffset()
-		h.s.Logf("log: %d stored, %d committed, oldest=%d newest=%d hw=%d readonly=%v", len(all), len(committed), oldest, newest, hw, readonly)
-		tsAt := func(permille int64) int64 {
-			if len(all) == 0 {
-				return time.Now().UnixNano() - int64(time.Second) + permille*int64(time.Millisecond)
-			}
-			lo, hi := all[0].ts-int64(5*time.Millisecond), all[len(all)-1].ts+int64(5*time.Millisecond)
-			return lo + (hi-lo)*permille/1000
-		}
-		offAt := func(permille int64) int64 {
-			span := newest + 4
-			if span < 4 {
-				span = 4
-			}
-			return permille * span / 1000
+		if c.activeEmpty {
+			cnt["probe.programs_with_empty_newest_segment"]++
 		}
 		for i, op := range prog.Ops {
-			if h.stop {
+			if h.stop || h.oc.Trouble != "" {
 				break
 			}
-			sreq := &client.SubscribeRequest{Stream: "s", Partition: 0}
-			reverse := op.Arg(4, 0) == 1
-			sreq.Reverse = reverse
-			// ---- start position: lower bound S of the requested range
-			var S int64
-			spec := true
-			desc := ""
-			switch op.Arg(0, 0) {
-			case 0:
-				sreq.StartPosition = client.StartPosition_NEW_ONLY
-				S = newest + 1
-				desc = "start=NEW_ONLY"
-			case 1:
-				sreq.StartPosition = client.StartPosition_OFFSET
-				sreq.StartOffset = offAt(op.Arg(1, 0))
-				if sreq.StartOffset < 0 {
-					sreq.StartOffset = 0
+			switch op.K {
+			case "sub":
+				j, u := c.subOp(i, op)
+				if j {
+					c.judged++
 				}
-				S = sreq.StartOffset
-				desc = fmt.Sprintf("start=OFFSET(%d)", S)
-			case 2:
-				sreq.StartPosition = client.StartPosition_EARLIEST
-				S = oldest
-				if S < 0 {
-					S = 0
+				if u {
+					unspecified++
 				}
-				desc = "start=EARLIEST"
-			case 3:
-				sreq.StartPosition = client.StartPosition_LATEST
-				S = newest
-				if S < 0 {
-					S = 0
-				}
-				desc = "start=LATEST"
-			case 4:
-				sreq.StartPosition = client.StartPosition_TIMESTAMP
-				sreq.StartTimestamp = tsAt(op.Arg(1, 0))
-				S = newest + 1
-				for _, m := range all {
-					if m.ts >= sreq.StartTimestamp {
-						S = m.off
-						break
-					}
-				}
-				desc = fmt.Sprintf("start=TIMESTAMP(%d -> first offset %d)", sreq.StartTimestamp, S)
-				if verbose {
-					got, err := p.log.EarliestOffsetAfterTimestamp(sreq.StartTimestamp)
-					h.s.Logf("EarliestOffsetAfterTimestamp(%d) = %d %v; model %d", sreq.StartTimestamp, got, err, S)
-					for _, m := range all {
-						h.s.Logf("   off=%d ts=%d", m.off, m.ts)
-					}
-					h.s.Logf("   segments: %s", commitlog.DebugSegments(p.log))
-				}
-			}
-			// A start offset that exceeds the high watermark is served as "wait for the next message":
-			// the subscription starts at HW+1 (documented by the repository's TestSubscribeOffsetOverflow
-			// and by newReaderCommitted). Reverse subscriptions clamp to the HW instead.
-			Sreq := S
-			if !reverse && S > hw {
-				S = hw + 1
-				desc += fmt.Sprintf("[beyond hw: effective start %d]", S)
-			}
-			// ---- stop position: inclusive upper bound E (-1: none)
-			E := int64(-1)
-			emptyStop := false
-			switch op.Arg(2, 0) {
-			case 0:
-				sreq.StopPosition = client.StopPosition_STOP_ON_CANCEL
-				desc += " stop=ON_CANCEL"
-			case 1:
-				sreq.StopPosition = client.StopPosition_STOP_OFFSET
-				sreq.StopOffset = offAt(op.Arg(3, 0))
-				if sreq.StopOffset < 0 {
-					sreq.StopOffset = 0
-				}
-				E = sreq.StopOffset
-				desc += fmt.Sprintf(" stop=OFFSET(%d)", E)
-			case 2:
-				sreq.StopPosition = client.StopPosition_STOP_LATEST
-				E = newest
-				if newest == -1 {
-					emptyStop = true
-				}
-				desc += fmt.Sprintf(" stop=LATEST(%d)", E)
-			case 3:
-				sreq.StopPosition = client.StopPosition_STOP_TIMESTAMP
-				sreq.StopTimestamp = tsAt(op.Arg(3, 0))
-				E = -2
-				for _, m := range all {
-					if m.ts <= sreq.StopTimestamp {
-						E = m.off
-					}
-				}
-				if E == -2 {
-					spec = false // a stop time before the first message: no documented outcome
-				}
-				desc += fmt.Sprintf(" stop=TIMESTAMP(%d -> last offset %d)", sreq.StopTimestamp, E)
-			}
-			if reverse {
-				desc += " reverse"
-				if sreq.StopPosition != client.StopPosition_STOP_ON_CANCEL {
-					spec = false // reverse with a stop position: meaning not documented
-				}
-				if sreq.StartPosition == client.StartPosition_NEW_ONLY || sreq.StartPosition == client.StartPosition_TIMESTAMP || readonly {
-					spec = false
-				}
-			}
-			if !spec {
-				unspecified++
-				continue
-			}
-			// ---- expected deliveries
-			var want []c10msg
-			endsByItself := false
-			anyEnd := false
-			wantCode := codes.OK
-			switch {
-			case reverse:
-				for j := len(committed) - 1; j >= 0; j-- {
-					if committed[j].off <= S {
-						want = append(want, committed[j])
-					}
-				}
-				endsByItself = true // at the beginning of the log
-				wantCode = codes.Unknown
-			case emptyStop:
-				endsByItself = true
-				wantCode = codes.ResourceExhausted
-			case E >= 0 && E < Sreq:
-				endsByItself = true
-				wantCode = codes.InvalidArgument
-			default:
-				for _, m := range committed {
-					if m.off >= S && (E < 0 || m.off <= E) {
-						want = append(want, m)
-					}
-				}
-				switch {
-				case readonly && hw < newest && Sreq > newest:
-					// read-only with an uncommitted tail and nothing in range: ends or waits, not documented
-					spec = false
-				case readonly && hw < newest && !(E >= 0 && E <= hw):
-					// read-only, but the end of the log is not committed yet: the subscription has not reached
-					// "the end of the log" and keeps waiting for the high watermark
-				case readonly && Sreq > newest:
-					// nothing can ever be in range on a read-only partition: it ends; with which status is not documented
-					endsByItself = true
-					anyEnd = true
-				case E >= 0 && E <= hw:
-					endsByItself = true
-					wantCode = codes.ResourceExhausted
-				case readonly && hw >= newest:
-					// a read-only partition ends at the end of its log, whatever else was asked for
-					endsByItself = true
-					wantCode = codes.ResourceExhausted
-					if S > newest {
-						anyEnd = true // nothing in range at all: any terminating status is accepted
-					}
-				}
-			}
-			if !spec {
-				unspecified++
-				continue
-			}
-			judged++
-			h.s.Logf("request %d: %s", i, desc)
-			ctx, cancel := ctxT(time.Hour)
-			st := h.subscribe(n, ctx, sreq)
-			// wait until it ended, or everything expected arrived and 5 more simulated seconds passed
-			h.waitFor("sub-progress", 20*time.Second, func() bool { return st.ended || len(st.msgs) >= len(want) })
-			if !st.ended {
-				h.waitFor("sub-settle", 5*time.Second, func() bool { return st.ended })
-			}
-			got := append([]*client.Message{}, st.msgs...)
-			h.oc.Checks++
-			fail := func(kind, format string, a ...any) {
-				h.fail("C10/"+kind, "C10/"+kind, "%s on a log with retained offsets %s, hw=%d, readonly=%v: %s", desc, c10offs(all), hw, readonly, fmt.Sprintf(format, a...))
-			}
-			// content and order
-			for k := 0; k < len(got) && k < len(want); k++ {
-				if got[k].Offset != want[k].off || string(got[k].Value) != want[k].val || got[k].Timestamp != want[k].ts {
-					kind := "wrong-message"
-					if !reverse && got[k].Offset < S {
-						kind = "before-start"
-					}
-					if got[k].Offset > hw {
-						kind = "uncommitted"
-					}
-					fail(kind, "delivery %d is offset %d (%q), expected offset %d (%q); delivered %s", k, got[k].Offset, got[k].Value, want[k].off, want[k].val, c10got(got))
-					break
-				}
-			}
-			if h.stop {
-				cancel()
-				break
-			}
-			if len(got) > len(want) {
-				kind := "extra"
-				x := got[len(want)]
-				switch {
-				case E >= 0 && x.Offset > E:
-					kind = "beyond-stop"
-				case x.Offset > hw:
-					kind = "uncommitted"
-				case !reverse && x.Offset < S:
-					kind = "before-start"
-				}
-				fail(kind, "delivered %s, expected only %s", c10got(got), c10offs(want))
-			} else if len(got) < len(want) {
-				fail("missing", "delivered %s, expected %s (ended=%v err=%v)", c10got(got), c10offs(want), st.ended, st.err)
-			}
-			if h.stop {
-				cancel()
-				break
-			}
-			// termination and status
-			if endsByItself {
-				if !st.ended {
-					fail("does-not-end", "delivered %s and then did not end within 5 simulated seconds (expected status %v)", c10got(got), wantCode)
-				} else if code := status.Code(st.err); st.err == nil || (code != wantCode && !(reverse && st.err != nil) && !anyEnd && len(want) > 0) {
-					fail("status", "ended with %v, expected status code %v", st.err, wantCode)
-				}
-			} else {
-				if st.ended {
-					fail("ends-early", "ended with %v although it should keep waiting for new messages", st.err)
-				} else {
-					kept++
-					if op.Arg(5, 0) == 1 && !readonly && !h.stop {
-						// it keeps waiting: new committed messages inside the range must arrive, others must not
-						before := len(st.msgs)
-						var extra []c10msg
-						for k := 0; k < 2; k++ {
-							simrt.Sleep(2 * time.Millisecond)
-							val := fmt.Sprintf("later-%d-%d", i, k)
-							off, err := publish("", val)
-							if err != nil {
-								h.oc.Trouble = err.Error()
-								cancel()
-								return
-							}
-							_ = off
-						}
-						simrt.Sleep(10 * time.Millisecond)
-						stored, err := h.readLog(n, "s", 0)
-						if err != nil {
-							h.oc.Trouble = "read log: " + err.Error()
-							cancel()
-							return
-						}
-						hw = p.log.HighWatermark()
-						oldHW := int64(-1)
-						if len(committed) > 0 {
-							oldHW = committed[len(committed)-1].off
-						}
-						all, committed = nil, nil
-						for _, m := range stored {
-							cm := c10msg{m.off, m.ts, string(m.val)}
-							all = append(all, cm)
-							if m.off <= hw {
-								committed = append(committed, cm)
-								if m.off > oldHW && m.off >= S && (E < 0 || m.off <= E) {
-									extra = append(extra, cm)
-								}
-							}
-						}
-						newest = p.log.NewestOffset()
-						oldest = p.log.OldestOffset()
-						h.waitFor("sub-more", 5*time.Second, func() bool { return st.ended || len(st.msgs) >= before+len(extra) })
-						h.waitFor("sub-more-settle", time.Second, func() bool { return st.ended })
-						h.oc.Checks++
-						more := st.msgs[before:]
-						bad := len(more) != len(extra)
-						for k := 0; !bad && k < len(more); k++ {
-							bad = more[k].Offset != extra[k].off || string(more[k].Value) != extra[k].val
-						}
-						if bad {
-							kind := "later-messages"
-							for _, m := range more {
-								if m.Offset < S {
-									kind = "before-start"
-								}
-							}
-							fail(kind, "after two more messages were committed (log now %s, hw=%d) it delivered %s, expected %s", c10offs(all), hw, c10got(more), c10offs(extra))
-						}
-						laterJudged++
-					}
-				}
-			}
-			cancel()
-			h.waitFor("sub-cancelled", 5*time.Second, func() bool { return st.ended })
-			if !st.ended && !h.stop {
-				fail("cancel", "did not return after its context was cancelled")
+			case "live":
+				c.liveOp(i, op)
 			}
 		}
+		judged = c.judged
 		h.stopNode(0)
 	})
 	oc.Nontrivial = judged >= 3 && oc.Checks >= 3
@@ -489,8 +1417,9 @@ func execC10(t *testing.T, prog *hx.Program, dec *simrt.Decider, verbose bool) *
 	}
 	oc.Counters["probe.requests_judged"] = judged
 	oc.Counters["probe.requests_unspecified_by_docs"] = unspecified
-	oc.Counters["probe.requests_that_keep_waiting"] = kept
-	oc.Counters["probe.waiting_requests_fed_new_messages"] = laterJudged
+	for k, v := range cnt {
+		oc.Counters[k] += v
+	}
 	return oc
 }
 
@@ -507,6 +1436,14 @@ func c10offs(ms []c10msg) string {
 		} else {
 			s += fmt.Sprintf("%d ", ms[i].off)
 		}
+	}
+	return s + "]"
+}
+
+func c10stored(ms []storedMsg) string {
+	s := "["
+	for _, m := range ms {
+		s += fmt.Sprintf("%d ", m.off)
 	}
 	return s + "]"
 }
